@@ -94,7 +94,21 @@ class Ctx:
             pass
         self.solver.set("timeout", self.timeout_ms)
         self.last_solver = self.solver
-        return str(self.solver.check(*extra))
+        r = str(self.solver.check(*extra))
+        if r == "unknown":
+            # model finding only: stochastic local search can produce a witness (sat) for circuits
+            # on which CDCL stalls (e.g. two different hash circuits); it can never support 'holds'
+            try:
+                s3 = z3.Then("simplify", "ackermannize_bv", "simplify", "qfbv-sls").solver()
+                s3.set("timeout", 30000)
+                s3.add(*self.solver.assertions())
+                s3.add(*extra)
+                if str(s3.check()) == "sat":
+                    self.last_solver = s3
+                    return "sat"
+            except z3.Z3Exception:
+                pass
+        return r
 
     def newvar(self, prefix, sort):
         self.fresh += 1
